@@ -585,6 +585,10 @@ func (C18) Run(s any, c *core.Ctx) (out core.Outcome) {
 	}
 	// (2) round trip with the right keys
 	r.evals++
+	if v := r.otherReaders(); v != nil {
+		out.Violation = v
+		return out
+	}
 	res := r.fullRead(r.good, r.keys, -1)
 	switch {
 	case res.Wrong != nil:
@@ -910,6 +914,92 @@ func (r *c18run) tamperWide(rng *tape.Rng) *core.Violation {
 		if v := r.run1(C18Case{Kind: "flip", Off: int64(rng.Uint64() % uint64(len(r.good))), Bit: rng.Intn(8)}); v != nil {
 			return v
 		}
+	}
+	return nil
+}
+
+// otherReaders reads the untampered file the ways the full read does not: the
+// seek history on a file opened without its page index, and the row groups
+// handed to WriteRowGroup of another writer (plain, and encrypting with other
+// keys): what comes out must hold the rows and, in the plain case, be readable
+// without any key.
+func (r *c18run) otherReaders() (v *core.Violation) {
+	sc := r.sc
+	model := r.data.Rows()
+	defer func() {
+		if p := recover(); p != nil {
+			v = core.Violate("C18/panic/other-readers", "panic: %v%s", p, core.StackIfWanted())
+		}
+	}()
+	fo := sc.F
+	fo.SkipPageIndex, fo.Async = true, false
+	sf := env.NewFile(r.c, r.good)
+	f, err := parquet.OpenFile(sf, sf.Size(), append(fo.Options(), parquet.WithDecryption(r.keys))...)
+	if err != nil {
+		return core.Violate("C18/roundtrip/error-with-right-keys", "open without page index: %v", err)
+	}
+	rd := parquet.NewReader(f)
+	back, served := 0, 0
+	hv := c08RowOps(r.c, "encrypted-reader-without-index", rd, model, sc.Seeks, &back, &served)
+	rd.Close()
+	if hv != nil {
+		if strings.Contains(hv.Class, "read-error") || strings.Contains(hv.Class, "seek-error") {
+			return core.Violate("C18/roundtrip/error-with-right-keys", "seek history on a file opened without page index: %s", hv.Detail)
+		}
+		hv.Class = "C18/roundtrip/" + lastSeg(hv.Class)
+		return hv
+	}
+	if sc.Mode == "rowgroup-writers" || r.sh.HasMap() {
+		return nil
+	}
+	// rewriting: the source's modules must not be spliced into a file they do not belong to
+	for _, target := range []string{"plain", "encrypted"} {
+		e := &gen.Env{Ctx: r.c}
+		sink, face := env.NewSink(r.c, env.SinkFaces{}, nil)
+		w2opts := sc.Plan.W.Options(e)
+		var keys2 *keyRing
+		if target == "encrypted" {
+			keys2 = &keyRing{footer: bytes.Repeat([]byte{0x42}, 16), cols: map[string][]byte{}}
+			w2opts = append(w2opts, parquet.WithEncryption(&parquet.EncryptionConfig{FooterKey: keys2.footer, EncryptedFooter: sc.EncryptedFooter, FileIdentifier: []byte("rewrite1")}))
+		}
+		w2 := parquet.NewWriter(face, append([]parquet.WriterOption{r.sh.Schema()}, w2opts...)...)
+		for _, rg := range f.RowGroups() {
+			if _, err := w2.WriteRowGroup(rg); err != nil {
+				return core.Violate("C18/rewrite/write-error/"+target, "WriteRowGroup of a decrypted row group: %v", err)
+			}
+		}
+		if err := w2.Close(); err != nil {
+			return core.Violate("C18/rewrite/write-error/"+target, "Close: %v", err)
+		}
+		var ropts []parquet.FileOption
+		if keys2 != nil {
+			ropts = append(ropts, parquet.WithDecryption(keys2))
+		}
+		out := sink.Bytes()
+		f2, err := parquet.OpenFile(bytes.NewReader(out), int64(len(out)), ropts...)
+		if err != nil {
+			return core.Violate("C18/rewrite/unreadable/"+target, "the file written from the decrypted row groups does not open: %v", err)
+		}
+		pos := 0
+		for _, rg := range f2.RowGroups() {
+			rows, dv := drainRows(rg.Rows())
+			if dv != nil {
+				return core.Violate("C18/rewrite/unreadable/"+target, "reading the file written from the decrypted row groups: %s", dv.Detail)
+			}
+			for _, row := range rows {
+				if pos >= len(model) {
+					return core.Violate("C18/rewrite/wrong-data/"+target, "more rows than were written")
+				}
+				if d := gen.RowDiff(model[pos], row); d != "" {
+					return core.Violate("C18/rewrite/wrong-data/"+target, "row %d: %s", pos, d)
+				}
+				pos++
+			}
+		}
+		if pos != len(model) {
+			return core.Violate("C18/rewrite/wrong-data/"+target, "%d of %d rows", pos, len(model))
+		}
+		r.c.Probe("rewrites-" + target)
 	}
 	return nil
 }
